@@ -79,7 +79,7 @@ package validation
 // The configs/secrets clauses are inactive: the table dispatch treats the two checkFileObject(...) rows as
 // "unresolved function value" (captured keys unknown), so nothing about them reaches check.
 //@ func check
-//@   except precondition#1, precondition#2 : undischarged on the reference tree (engine limit or missing callee contract), not claimed
+//@   except precondition@3e300d#1, precondition@526c43#1 : undischarged on the reference tree (engine limit or missing callee contract), not claimed
 //@   nopanic[C01,C10]
 //@?  ensures[C10] pathmatch(p, "secrets.*") && has(asMap(value), "file") && has(asMap(value), "environment") ==> err != nil
 //@?  ensures[C10] pathmatch(p, "secrets.*") && !has(asMap(value), "file") && !has(asMap(value), "environment") && !has(asMap(value), "driver") && !has(asMap(value), "external") ==> err != nil
